@@ -107,6 +107,16 @@ def complex_lexeme(draw, allow_lead_sign=True):
     return lead + re_part + draw(number_lexeme()) + draw(st.sampled_from("jjJ"))
 
 
+@st.composite
+def tiny_complex(draw):
+    """Complex literal whose imaginary (or real) part is tiny or huge relative to the other."""
+    small = "%de-%d" % (draw(st.integers(1, 9)), draw(st.integers(13, 30)))
+    other = draw(st.sampled_from(["", "1+", "0.5-", "2e3+", "0+"]))
+    if draw(st.booleans()):
+        return A.Num("complex", other + small + "j")
+    return A.Num("complex", small + draw(st.sampled_from("+-")) + draw(st.sampled_from(["1", "0.5", "3e2"])) + "j")
+
+
 def num_int(**kw):
     return int_lexeme(**kw).map(lambda t: A.Num("int", t))
 
@@ -286,10 +296,16 @@ def _num_operand(draw, ctx, depth, kind, symbolic, prev_op):
         choices += ["reg"] * 4
     k = draw(st.sampled_from(choices))
     if k == "int":
+        if not symbolic and draw(st.integers(0, 11)) == 0:
+            return A.Operand(signs, draw(num_int(small=False)))      # up to 2**62: beyond the 2**53 float-exact range
         return A.Operand(signs, draw(num_int()))
     if k == "float":
+        if not symbolic and draw(st.integers(0, 11)) == 0:
+            return A.Operand(signs, draw(num_float(moderate=False)))  # exponents up to e+-30
         return A.Operand(signs, draw(num_float()))
     if k == "complex":
+        if draw(st.integers(0, 5)) == 0:
+            return A.Operand(signs, draw(tiny_complex()))
         return A.Operand(signs, draw(num_complex()))
     if k == "pi":
         return A.Operand(signs, PI)
@@ -332,6 +348,45 @@ def _num_operand(draw, ctx, depth, kind, symbolic, prev_op):
 # ------------------------------------------------------------------ values, arguments, statements
 
 @st.composite
+def risky_symbolic(draw, ctx, symbolic):
+    """Symbolic expressions around Blackbird's unusual binding of the unary minus (tighter than **):
+    negated powers of nested bracketed bases, products with -1, leading negative terms."""
+    sub = Ctx(ints=ctx.ints, floats=ctx.floats, params=ctx.params, regs=ctx.regs, sym_scalars=ctx.sym_scalars,
+              arrays=ctx.arrays, loopvar=ctx.loopvar, depth=2)
+    inner = draw(num_expr(sub, 2, "real", symbolic))
+    leaf = A.Param(draw(st.sampled_from(ctx.params))) if symbolic == "params" else A.Reg(draw(st.sampled_from(ctx.regs)))
+    # base: (leaf + (inner)/c) or ((inner)*leaf + c) ... always depends on a symbol and has a nested bracket
+    c = A.Num("float", draw(st.sampled_from(["2.0", "0.5", "3.0"])))
+    pool = [A.Param(n) for n in ctx.params] if symbolic == "params" else [A.Reg(r) for r in ctx.regs]
+    d1, d2 = draw(st.sampled_from(pool)), draw(st.sampled_from(pool))
+    one = A.Num("int", "1")
+    nested = A.Paren(A.Flat([A.Operand("", d1), A.Operand("", one)], ["+"]))          # (x + 1): stays bracketed when divided by a symbol
+    base = draw(st.sampled_from([
+        A.Flat([A.Operand("", leaf), A.Operand("", nested), A.Operand("", d2)], ["+", "/"]),                    # leaf + (x+1)/y
+        A.Flat([A.Operand("", nested), A.Operand("", d2), A.Operand("", one)], ["/", "+"]),                     # (x+1)/y + 1
+        A.Flat([A.Operand("", nested), A.Operand("", A.Paren(A.Flat([A.Operand("", d2), A.Operand("", c)], ["+"])))], ["*"]),  # (x+1)*(y+c)
+        A.Flat([A.Operand("", leaf), A.Operand("", A.Paren(inner)), A.Operand("", c)], ["+", "/"]),
+        A.Flat([A.Operand("", A.Paren(inner)), A.Operand("", leaf), A.Operand("", c)], ["*", "+"]),
+        A.Flat([A.Operand("", A.Paren(A.Flat([A.Operand("", leaf), A.Operand("", c)], ["+"]))), A.Operand("", c), A.Operand("", A.Num("int", "1"))], ["/", "+"]),
+        A.Flat([A.Operand("", leaf)], []),
+    ]))
+    k = A.Num("int", draw(st.sampled_from(["2", "2", "3", "4"])))
+    pw = A.Flat([A.Operand("", A.Paren(base)), A.Operand("", k)], ["**"])
+    form = draw(st.integers(0, 5))
+    if form == 0:
+        return A.Flat([A.Operand("-", A.Paren(pw))], [])                                  # -((B)**k)
+    if form == 1:
+        return A.Flat([A.Operand("", A.Num("int", "0")), A.Operand("", A.Paren(base)), A.Operand("", k)], ["-", "**"])   # 0-(B)**k
+    if form == 2:
+        return A.Flat([A.Operand("", A.Paren(base)), A.Operand("", k), A.Operand("-", A.Num("int", "1"))], ["**", "*"])  # (B)**k*-1
+    if form == 3:
+        return A.Flat([A.Operand("-", A.Paren(pw)), A.Operand("", A.Num("float", "3.0")), A.Operand("", leaf)], ["/", "+"])  # -((B)**k)/3.0+leaf
+    if form == 4:
+        return A.Flat([A.Operand("-", A.Paren(pw)), A.Operand("", A.Paren(base))], ["*"])   # -((B)**k)*(B)
+    return A.Flat([A.Operand("-", A.Paren(base)), A.Operand("", k)], ["**"])               # -(B)**k  == (-(B))**k
+
+
+@st.composite
 def plain_value(draw, ctx, allow_nonnumeric=True, symbolic=None):
     """A single argument value (no list)."""
     choices = ["num", "num", "num", "int"]
@@ -352,6 +407,8 @@ def plain_value(draw, ctx, allow_nonnumeric=True, symbolic=None):
         return A.Bool(draw(st.booleans()))
     if k == "nnvar":
         return F1(A.Var(draw(st.sampled_from(ctx.strs + ctx.bools))))
+    if ((symbolic == "params" and ctx.params) or (symbolic == "regs" and ctx.regs)) and draw(st.integers(0, 4)) == 0:
+        return draw(risky_symbolic(ctx, symbolic))
     return draw(num_expr(ctx, kind="real", symbolic=symbolic))
 
 
